@@ -75,6 +75,10 @@ MUTS = [
     ("en-log2", EN, "log_p = np.log(p,", "log_p = np.log2(p,"),
     ("en-no-minus", EN, "H = -np.sum(p * log_p)", "H = np.sum(p * log_p)"),
     ("en-norm-max", EN, "p = np.copy(p) / np.sum(p)", "p = np.copy(p) / np.max(p)"),
+    ("en-no-asarray", EN, "    p = np.asarray(p)\n", ""),
+    ("en-asanyarray", EN, "    p = np.asarray(p)\n", "    p = np.asanyarray(p)\n"),
+    ("kl-asanyarray", EN, "    P = np.array(P)\n    Q = np.array(Q)\n", "    P = np.asanyarray(P)\n    Q = np.asanyarray(Q)\n"),
+    ("kl-no-conversion-q", EN, "    Q = np.array(Q)\n", ""),
     ("kl-no-nan-repair", EN, "    log_likelihoods[np.where(np.isnan(log_likelihoods))] = 0\n", ""),
     ("kl-ratio-inverted", EN, "log_likelihoods = P * np.log(P / Q)", "log_likelihoods = P * np.log(Q / P)"),
     ("kl-weight-q", EN, "log_likelihoods = P * np.log(P / Q)", "log_likelihoods = Q * np.log(P / Q)"),
